@@ -82,3 +82,21 @@ HANDLER(advance)
     out << "| " << off;
     return out.str();
 }
+
+// guess <ctx> <kr> <opts> <hex> <cur> -> the answer of Parser::guessRoleOfIdentifier(ctx) with the cursor at token <cur> (0 declarator, 1 typedef-name)
+HANDLER(guess)
+{
+    int ctx, kr; std::string o, h; unsigned cur; in >> ctx >> kr >> o >> h >> cur;
+    if (h == "-") h = "";
+    std::unique_ptr<SyntaxTree> tree(new SyntaxTree(SourceText(unhex(h)), TextPreprocessingState::Unknown,
+                                                    TextCompleteness::Unknown, makeOpts(o), ""));
+    Lexer lexer(tree.get());
+    lexer.lex();
+    Parser parser(tree.get());
+    auto n = tree->tokenCount();
+    if (cur < 1 || cur >= n) return "ERR cursor";
+    parser.curTkIdx_ = cur;
+    parser.isWithinKandRFuncDef_ = kr != 0;
+    auto r = parser.guessRoleOfIdentifier((Parser::DeclarationContext)ctx);
+    return std::to_string((int)r);
+}
